@@ -44,7 +44,7 @@ def teardown(ctx):
         'normalize', 'transpose', 'mle')))
 
 
-def identities(ctx, bname, Cp, Cout, T, pi, eqflag, tag):
+def identities(ctx, bname, Cp, Cout, T, pi, eqflag, tag, eps=1e-12):
     """Defining identities on dense arrays.  Cp = counts + prior."""
     ok = True
 
@@ -59,23 +59,23 @@ def identities(ctx, bname, Cp, Cout, T, pi, eqflag, tag):
         return False
     if np.any(T < -1e-15) or not np.all(np.isfinite(T)):
         bad('negative-or-nan', 'T has negative or non-finite entries')
-    if np.abs(T.sum(axis=1) - 1).max() > 1e-10:
+    if np.abs(T.sum(axis=1) - 1).max() > max(1e-10, eps):
         bad('rows-not-stochastic', 'row sums %s' % T.sum(axis=1))
     if bname == 'normalize':
-        if np.abs(T - Cp / rs[:, None]).max() > 1e-12:
+        if np.abs(T - Cp / rs[:, None]).max() > eps:
             bad('not-counts-over-rowsum', 'T != C/rowsum(C)')
-        if np.abs(Cout - Cp).max() > 1e-12:
+        if np.abs(Cout - Cp).max() > eps * (1 + np.abs(Cp).max()):
             bad('counts-out', 'returned counts != counts (+ prior)')
     elif bname == 'transpose':
         S = Cp + Cp.T
-        if np.abs(T - S / S.sum(axis=1)[:, None]).max() > 1e-12:
+        if np.abs(T - S / S.sum(axis=1)[:, None]).max() > eps:
             bad('not-symmetrised', 'T != (C+C^T)/rowsum')
-        if np.abs(Cout - S / 2).max() > 1e-12:
+        if np.abs(Cout - S / 2).max() > eps * (1 + np.abs(S).max()):
             bad('counts-out', 'returned counts != (C+C^T)/2')
-        if pi is not None and np.abs(pi - S.sum(axis=1) / S.sum()).max() > 1e-12:
+        if pi is not None and np.abs(pi - S.sum(axis=1) / S.sum()).max() > eps:
             bad('populations', 'pi != rowsum(C+C^T)/total')
     else:
-        if np.abs(Cout - Cp).max() > 1e-12:
+        if np.abs(Cout - Cp).max() > eps * (1 + np.abs(Cp).max()):
             bad('counts-out', 'returned counts != counts (+ prior)')
     if pi is None:
         if eqflag and True:
@@ -86,10 +86,10 @@ def identities(ctx, bname, Cp, Cout, T, pi, eqflag, tag):
         bad('populations-shape', 'pi has shape %s dtype %s' % (
             pi.shape, pi.dtype))
         return False
-    if abs(pi.sum() - 1) > 1e-10 or np.any(pi < -1e-12):
+    if abs(pi.sum() - 1) > max(1e-10, eps) or np.any(pi < -1e-12):
         bad('populations-not-distribution', 'sum %.15g min %.3g' % (
             pi.sum(), pi.min()))
-    tolst = 1e-6 if bname == 'mle' else 1e-9
+    tolst = 1e-6 if bname == 'mle' else max(1e-9, eps)
     if np.abs(pi @ T - pi).max() > tolst:
         bad('not-stationary', '|pi T - pi| = %.3g' % np.abs(pi @ T - pi).max())
     if bname in ('transpose', 'mle'):
@@ -106,6 +106,14 @@ def run_case(ctx, kind, rng, idx):
     # the Prinz iteration converges very slowly on periodic chains (minutes
     # in pure Python): periodic structures only for the two direct builders
     C = mc.strongly_connected_counts(rng, allow_periodic=bname != 'mle')
+    if rng.random() < 0.3:
+        mx = float(np.max(C))
+        if np.issubdtype(C.dtype, np.integer):
+            cand = [np.int32, np.uint32, np.uint64] + (
+                [np.uint16, np.int16] if mx < 3e4 else [])
+        else:
+            cand = [np.float32]
+        C = C.astype(cand[int(rng.integers(0, len(cand)))])
     n = len(C)
     pk = ['none', 'none', 'scalar', 'matrix'][int(rng.integers(0, 4))]
     if pk == 'scalar':
@@ -117,6 +125,10 @@ def run_case(ctx, kind, rng, idx):
     eqflag = bool(rng.random() < 0.75)
     Cp = np.asarray(C, dtype=float) + (0 if prior is None else prior)
     fn = getattr(builders, bname)
+    # counts stored in float32 / 16-bit integers are processed in single
+    # precision by scipy (asfptype) and numpy: agreement is then required to
+    # single precision only
+    eps = 5e-7 if (C.dtype == np.float32 or C.dtype.itemsize <= 2) else 1e-12
     desc = {'builder': bname, 'prior': pk, 'eq': eqflag, 'n': n,
             'C': C if n <= 8 else 'elided', 'dtype': str(C.dtype)}
     ctx.describe(desc)
@@ -164,7 +176,7 @@ def run_case(ctx, kind, rng, idx):
                                   cname, nm, type(out).__name__))
         Td, Cd = mc.dense(T).astype(float), mc.dense(Cout).astype(float)
         ok = identities(ctx, bname, Cp, Cd, Td, pi,
-                        eqflag or bname == 'mle' and False, cname)
+                        eqflag or bname == 'mle' and False, cname, eps)
         results[cname] = (Td, Cd, None if pi is None else np.asarray(pi))
         ctx.count('containers_compared')
     if 'ndarray' in results:
@@ -172,9 +184,10 @@ def run_case(ctx, kind, rng, idx):
         for cname, (Td, Cd, p) in results.items():
             if cname == 'ndarray':
                 continue
-            if np.abs(Td - T0).max() > 1e-12 or np.abs(Cd - C0).max() > 1e-12 \
-                    or ((p is None) != (p0 is None)) or (
-                        p is not None and np.abs(p - p0).max() > 1e-9):
+            if np.abs(Td - T0).max() > eps or np.abs(Cd - C0).max() > eps * (
+                    1 + np.abs(C0).max()) or ((p is None) != (p0 is None)) \
+                    or (p is not None and np.abs(p - p0).max() > max(1e-9,
+                                                                     eps)):
                 ctx.violation('builder.%s.container-dependent' % bname,
                               '%s result differs from dense result' % cname)
     offz = (np.asarray(C) == 0) & ~np.eye(n, dtype=bool)
